@@ -17,6 +17,12 @@ CHECKS = {
     "C06": dict(ref="6/C06", tech="TLC trace validation of permuted registrations against the order-free oracle; TLC exhibits non-transitivity of MoreSpecific on the 5-class lattice and every definition set/order there is replayed",
                 text="Registration orders (class records, methods, definitions) are shuffled; every order's outcome tables and next targets must equal the order-free oracle, hence agree with each other. Exhaustive over all definition orders on the D2 lattice (2,626 definition sets x up to 6 orders), sampled orders elsewhere.",
                 note="orders are sampled for class records and for registries outside the D2 lattice"),
+    "C04": dict(ref="6/C04", tech="TLC on the slot-allocation transcription (CompilerSlots.tla: CellsDisjoint, with the pre-repair variant as negative control) + TLC-generated lattices replayed on the real library; recorded layouts and read addresses (hook H2) validated by TLC (LayoutOK / ReadsRowOK)",
+                text="Every reduced lattice over <=5 classes (thorough: 6) x placement of up to 3-4 one-parameter methods (+ random multi-methods), registered with complete and with direct-only base lists: the installed layout must give every acceptable (class, method, parameter) its own cell inside the dispatch data, outside every dispatch table; every address resolve() reads must be that cell or inside the method's own table. Thorough re-executes under AddressSanitizer.",
+                note="read addresses are reported by hook H2 (add-only call sites in core.hpp); the policy's id->vptr lookup tables are covered by C05/C15"),
+    "C08": dict(ref="6/C08", tech="TLC: PresentationInvariant over every legal presentation (GenLat.tla) and CellsDisjoint (CompilerSlots.tla); every presentation of every graph <=4 classes (thorough: 5) replayed on the real library, tables/next/layout validated by TLC against the closure of the listed relation",
+                text="All 1,088 (graph, listed-bases) presentations over <=4 classes (thorough: 32,768 over 5), each also split over several records, duplicated and reordered, with a probe method on every class and a random multi-method: outcome tables over all acceptable tuples, next targets and slot layout must be those of the closure of the listed relation.",
+                note="record splitting / duplication / ordering is randomized per presentation, not exhaustive"),
     "C17": dict(ref="6/C17", tech="TLC trace validation of update reports against HasGap/HasAmbiguity over all and over concrete-only tuples (ReportOK in Yomm2.tla)",
                 text="Every registry of the bounded universes x assignments of abstract flags (all 2^N for N<=3; thorough: all) is updated and the returned report compared with an enumeration of all class tuples by the oracle; cells is compared with the number of multi-method cells the compiler object holds.",
                 note="iff-content of the report only (counts are not compared, the statement does not define them)"),
